@@ -273,7 +273,8 @@ def main(argv=None):
             continue
         seen_v.add(ident)
         rp = propmod.write_replay(pid, ob, HERE)
-        reproduced = propmod.try_native_replay(pid, ob, rp)
+        # a violation found by running the real code (bounded stand-ins) is its own replay
+        reproduced = True if ob.get("native") else propmod.try_native_replay(pid, ob, rp)
         if (ob.get("model") or {}).get("__weak__") and not reproduced:
             # candidate counterexample of a relaxed query that does not replay: undecided
             seen_v.discard(ident)
